@@ -67,7 +67,7 @@ let rec dump sc f (mn : str) (steps : step list) b (e : entry) =
     q (s_of (e_units e));
     (match e_ty e with Some t -> q (s_of t) | None -> "-");
     q (s_of (e_key e));
-    (match e_la e with Some (mn, mx) -> string_of_n mn ^ ":" ^ string_of_n mx | None -> "-");
+    (match e_la e with Some ((mn, mx), _) -> string_of_n mn ^ ":" ^ string_of_n mx | None -> "-");
     q (s_of (coq_Namespace sc f p));
     (if coq_ReadOnly f p then "RO" else "rw");
     (match coq_InstantiatingModule sc f p with Some m -> q (s_of m) | None -> "ERR") ]);
